@@ -95,12 +95,12 @@ pub fn run(ctx: &mut Ctx) {
         }
     }
     // contention without any perturbation: threads hammering random contents of different clusters
-    let nh = if ctx.quick() { 3 } else { 12 };
+    let nh = if ctx.quick() { 4 } else { 12 };
     for k in 0..nh as u64 {
         let case = (n + nr) as u64 + k;
         if ctx.wants(case) {
             let mut crng = rng.fork(case);
-            hammer(ctx, case, &mut crng, [8usize, 16, 4, 32][k as usize % 4], [Comp::None, Comp::Zstd(1), Comp::Lz4(1), Comp::Lzma(0)][k as usize % 4]);
+            hammer(ctx, case, &mut crng, [16usize, 8, 32, 12][k as usize % 4], [Comp::None, Comp::Zstd(1), Comp::Lz4(1), Comp::None][k as usize % 4]);
         }
     }
     for case in 0..n as u64 {
@@ -526,7 +526,7 @@ fn hammer(ctx: &mut Ctx, case: u64, rng: &mut Rng, nthreads: usize, comp: Comp) 
             return;
         }
     };
-    let reads = if ctx.quick() { 6000 } else { 40000 };
+    let reads = if ctx.quick() { 40000 } else { 250000 };
     let (tx, rx) = std::sync::mpsc::channel::<(usize, Option<String>, u64)>();
     for t in 0..nthreads {
         let pack = Arc::clone(&pack);
